@@ -78,8 +78,17 @@ theorem create_stores_arguments (cfg : Cfg) (env : Env) (s : State) (p : Params)
 
 /-- CreateStateMachine answered 200: the record is in the store under the returned ARN, and
 DescribeStateMachine of that ARN (when it is an ARN the API accepts) answers the record with
-the definition as the `json.dumps` text of exactly the value the sent text denotes -/
-theorem create_then_describe (cfg : Cfg) (env env' : Env) (s : State) (p q : Params) (body : Json)
+the definition as the `json.dumps` text of exactly the value the sent text denotes.
+
+PARTIAL.  Full statement ("described back unchanged"): additionally
+  `parseJson (render m.definition) = some m.definition`,
+i.e. decoding the described text gives the value the sent text denotes.  That is the
+printer/parser round trip of AslModel/JsonText.lean (for values whose objects have distinct
+member names, which `parseJson` guarantees by `normalise`); it is not proved in this file.
+The correspondence check evaluates it on the implementation for every successful
+DescribeStateMachine (`json.loads(body.definition)` = the stored definition = `json.loads`
+of the text sent) and compares the described text itself with `render`. -/
+theorem create_then_describe_partial (cfg : Cfg) (env env' : Env) (s : State) (p q : Params) (body : Json)
     (h : (step cfg env s (req "CreateStateMachine" p)).2 = .ok body) :
     ∃ arn m t, body = .obj [(S "creationDate", .num env.now), (S "stateMachineArn", .str arn)] ∧
       arg p "definition" = some (.str t) ∧ parseJson t = some m.definition ∧
